@@ -435,7 +435,7 @@ var c07Templates = []func(g *Gen, run func(Op) bool){
 			return
 		}
 		a := g.addr("t7-a")
-		b := g.dest("t7-b", a)
+		b := g.other("t7-b", a)
 		if !run(callOp(g.sysCall(g.shard(a), refBuiltInFunctionSetESDTRole, a, tok, []byte(refESDTRoleNFTCreate), []byte(refESDTRoleNFTAddQuantity), []byte(refESDTRoleNFTBurn)))) {
 			return
 		}
